@@ -113,6 +113,8 @@ where
     pub seq: i64,
     /// generator bias: most traffic goes to this peer (0 = no bias)
     pub bias_peer: i64,
+    /// the random generator may let behaviour b1 request dials (ToSwarm::Dial)
+    pub beh_dials: bool,
 }
 
 impl<B: Suite> Run<B>
@@ -143,11 +145,11 @@ where
         rig.world.push_event(Ev::NewAddress(lid, addr(100)));
         rig.poll_quiescent();
         rig.log.drain();
-        Run { rig, slot_conn: vec![], upg_conn: vec![], used: vec![], events: vec![], listener, seq: 0, bias_peer: 0 }
+        Run { rig, slot_conn: vec![], upg_conn: vec![], used: vec![], events: vec![], listener, seq: 0, bias_peer: 0, beh_dials: false }
     }
 
     pub fn from_rig(rig: Rig<B>, listener: i64) -> Run<B> {
-        Run { rig, slot_conn: vec![], upg_conn: vec![], used: vec![], events: vec![], listener, seq: 0, bias_peer: 0 }
+        Run { rig, slot_conn: vec![], upg_conn: vec![], used: vec![], events: vec![], listener, seq: 0, bias_peer: 0, beh_dials: false }
     }
 
     fn flush(&mut self) {
@@ -175,14 +177,22 @@ where
                 let addrs: Vec<i64> = c["addrs"].as_array().unwrap().iter().map(|x| x.as_i64().unwrap()).collect();
                 let mas: Vec<Multiaddr> = addrs.iter().map(|a| addr(*a)).collect();
                 let mut b = if peer >= 0 {
-                    let mut o = DialOpts::peer_id(self.rig.ids.peer_id(peer as usize)).condition(cond(&vcommon::s(c, "cond"))).addresses(mas);
+                    let factor_first = c.get("factor_first").and_then(|x| x.as_bool()).unwrap_or(false);
+                    let mut o = match c.get("factor").and_then(|x| x.as_u64()) {
+                        // the override given before the address list (autonat's v1 server builds its dial-backs this way)
+                        Some(k) if factor_first => DialOpts::peer_id(self.rig.ids.peer_id(peer as usize))
+                            .override_dial_concurrency_factor(std::num::NonZeroU8::new(k as u8).unwrap())
+                            .condition(cond(&vcommon::s(c, "cond")))
+                            .addresses(mas),
+                        _ => DialOpts::peer_id(self.rig.ids.peer_id(peer as usize)).condition(cond(&vcommon::s(c, "cond"))).addresses(mas),
+                    };
                     if c.get("extend").and_then(|x| x.as_bool()).unwrap_or(false) {
                         o = o.extend_addresses_through_behaviour();
                     }
                     if c.get("role_override").and_then(|x| x.as_bool()).unwrap_or(false) {
                         o = o.override_role();
                     }
-                    if let Some(k) = c.get("factor").and_then(|x| x.as_u64()) {
+                    if let (Some(k), false) = (c.get("factor").and_then(|x| x.as_u64()), factor_first) {
                         o = o.override_dial_concurrency_factor(std::num::NonZeroU8::new(k as u8).unwrap());
                     }
                     o.build()
@@ -223,6 +233,42 @@ where
                     "dialed_abs": dialed_abs}));
                 self.events.extend(cbs);
                 self.events.push(json!({"e": "dialRet", "id": id, "res": r}));
+            }
+            // behaviour b1 asks the Swarm to dial (ToSwarm::Dial); the Swarm is polled (one poll_next at a time) until it
+            // has taken the command, so that the transport dial slots created for it can be attributed to its id
+            "behDial" => {
+                let peer = vcommon::n(c, "peer");
+                let addrs: Vec<i64> = c["addrs"].as_array().unwrap().iter().map(|x| x.as_i64().unwrap()).collect();
+                let mas: Vec<Multiaddr> = addrs.iter().map(|a| addr(*a)).collect();
+                let opts = DialOpts::peer_id(self.rig.ids.peer_id(peer as usize)).condition(cond(&vcommon::s(c, "cond"))).addresses(mas).build();
+                let cid = opts.connection_id();
+                let id = self.rig.ids.conn(cid);
+                self.used.push(id);
+                for (i, pb) in self.behs().iter().enumerate() {
+                    let p = plan_of(c, i);
+                    pb.ctl.with(|ct| {
+                        ct.plans.insert(cid, p);
+                    });
+                }
+                let before = self.rig.world.with(|w| w.dials.len());
+                self.events.push(json!({"e": "behDial", "id": id, "peer": peer, "cond": c.get("cond").cloned().unwrap_or(json!("Always")), "addrs": addrs}));
+                self.behs()[0].ctl.emit(ToSwarm::Dial { opts });
+                let r = vcommon::guard(|| {
+                    for _ in 0..200 {
+                        if self.behs()[0].ctl.with(|ct| ct.commands.is_empty()) {
+                            break;
+                        }
+                        self.rig.poll_raw();
+                    }
+                });
+                let after = self.rig.world.with(|w| w.dials.len());
+                for _ in before..after {
+                    self.slot_conn.push(id);
+                }
+                self.flush();
+                if let Err(m) = r {
+                    self.events.push(json!({"e": "panic", "msg": m}));
+                }
             }
             "incoming" => {
                 for (i, pb) in self.behs().iter().enumerate() {
@@ -538,7 +584,12 @@ where
                 let addrs: Vec<i64> = (0..na).map(|_| r.gen_range(1..=3)).collect();
                 return json!({"c": "dial", "peer": peer, "cond": conds[r.gen_range(0..4)], "addrs": addrs, "plan": plan(r)});
             }
-            14..=24 if nconn < maxconn => return json!({"c": "incoming", "plan": plan(r)}),
+            14..=15 if nconn < maxconn && run.beh_dials => {
+                let peer = r.gen_range(0..=2);
+                let addrs: Vec<i64> = (0..r.gen_range(1..=2)).map(|_| r.gen_range(1..=4)).collect();
+                return json!({"c": "behDial", "peer": peer, "cond": "Always", "addrs": addrs, "plan": plan(r)});
+            }
+            16..=24 if nconn < maxconn => return json!({"c": "incoming", "plan": plan(r)}),
             25..=44 if !open_d.is_empty() => {
                 let n = open_d[r.gen_range(0..open_d.len())];
                 let who = match r.gen_range(0..10) {
@@ -613,6 +664,7 @@ pub fn main(a: &vcommon::Args) {
                 let deny_p = [0.0, 0.0, 0.1, 0.3][r.gen_range(0..4)];
                 let cfg = json!({"concurrency": r.gen_range(1..=3), "maxconn": maxconn, "close_polls": r.gen_range(1..=3), "manual": r.gen_bool(0.3)});
                 let mut run: Run<Three> = Run::new(&cfg);
+                run.beh_dials = true;
                 let mut sched = vec![];
                 for _ in 0..steps {
                     let mut c = gen_cmd(&mut r, &run, maxconn, deny_p);
@@ -620,7 +672,7 @@ pub fn main(a: &vcommon::Args) {
                         // authenticate as the peer the dial expects (or a random one for unknown-peer dials)
                         let n = c["n"].as_u64().unwrap() as usize;
                         let id = run.slot_conn[n];
-                        let exp = run.events.iter().find(|e| e["e"] == "dial" && e["id"] == id).map(|e| e["peer"].as_i64().unwrap()).unwrap_or(1);
+                        let exp = run.events.iter().find(|e| (e["e"] == "dial" || e["e"] == "behDial") && e["id"] == id).map(|e| e["peer"].as_i64().unwrap()).unwrap_or(1);
                         c["who"] = json!(if exp >= 0 { exp } else { r.gen_range(1..=2) });
                     }
                     run.exec(&c);
